@@ -21,7 +21,9 @@ EXPLANATION = (
     'reference_vertex counters change by one RMW and notify/forward exactly on the zero result; D7 every task class signals '
     'completion on every execute()/cancel() exit (sibling agreement); D8 join-tree nodes are created with a ref-count equal '
     'to the number of children attached, before the spawn; D9 the blocking wait goes through the dispatch loop before it '
-    'reads the exception / returns.  It does NOT decide absence of loss/duplication over all interleavings as such.')
+    'reads the exception / returns; D10 task memory: the small-object pool\'s private list is touched only by its owner, a '
+    'foreign free pushes onto the public list by a CAS loop with the link written before every attempt, the owner takes the '
+    'public list by one exchange.  It does NOT decide absence of loss/duplication over all interleavings as such.')
 ASSUMPTIONS = ['clang 14 selects the same declarations as the g++ 12 build for the analysed constructs',
                'C++11 memory model; seq_cst RMWs and seq_cst fences are the only full fences',
                'task classes not instantiated by drivers/*.cpp are not analysed']
@@ -39,6 +41,7 @@ def run(facts, rep):
     d7_tasks(facts, rep)
     d8_tree(facts, rep)
     d9_wait(facts, rep)
+    d10_task_memory(facts, rep)
 
 
 # ---------------------------------------------------------------------------------------------------------------
@@ -426,3 +429,38 @@ def d9_wait(facts, rep):
         ok = bool(ops) and all(has_acquire(o['order'] or 0) for _, o in ops)
         rep.ob('D9', 'K1', fn, 'the waiter reads the counter with acquire', ok, ', '.join(oname(o['order']) for _, o in ops))
     rep.floor('D9', 4, 'execute_and_wait + waiter')
+
+
+def d10_task_memory(facts, rep):
+    P = R1 + 'small_object_pool_impl::'
+    for fn in facts.get(P + 'deallocate_impl'):
+        def own(a, truth):
+            n = fn.n(fn.strip(a))
+            return truth and n.get('k') == 'binop' and n['op'] == '==' and any(
+                fn.nodes[x].get('k') == 'member' and fn.nodes[x]['n'] == 'my_small_object_pool' for x in fn.subtree(n['s'])) and \
+                any(fn.nodes[x].get('k') == 'this' for x in fn.subtree(n['s']))
+        oe = edges_where(fn, own)
+        from engine.rules import member_accesses, assignments
+        priv = [x for x in member_accesses(fn, ('m_private_list',)) if x[3] == 'write']
+        ok = bool(priv) and bool(oe) and all(dominated_by_edges(fn, x[0], oe)[0] for x in priv)
+        rep.ob('D10', 'K4', fn, 'the private free list of a task-memory pool is modified only by the owning thread', ok,
+               'a foreign thread pushes onto the unsynchronised private list: the same task memory is handed out twice')
+        ws = atomics_on(fn, 'm_public_list', kinds=('store', 'rmw', 'cas'))
+        cas = [(p, o) for p, o in ws if o['kind'] == 'cas']
+        link = [(p, s2) for p, s2, l, r in assignments(fn) if last_member(fn, l) == 'next']
+        ok = bool(cas) and len(cas) == len(ws) and bool(link)
+        for cp, co in cas:
+            ok = ok and every_path_passes(fn, 'entry', lambda p, e: p in set(x[0] for x in link), end=cp)[0]
+            reached, ex, par = fn.walk(cp, stop_elem=lambda p, e: p in set(x[0] for x in link))
+            ok = ok and cp not in reached
+        rep.ob('D10', 'K1', fn, 'a foreign free pushes onto the public list by CAS, re-linking before every attempt', ok,
+               'public list of the task-memory pool corrupted by concurrent frees')
+    for fn in facts.get(P + 'allocate_impl'):
+        ws = atomics_on(fn, 'm_public_list', kinds=('store', 'rmw', 'cas'))
+        ok = bool(ws) and all(o['kind'] == 'rmw' and o['name'] == 'exchange' for _, o in ws)
+        rep.ob('D10', 'K1', fn, 'the owner takes the whole public list by one exchange', ok, ', '.join(o['name'] for _, o in ws))
+    for fn in facts.get(P + 'destroy'):
+        ws = atomics_on(fn, 'm_public_list', kinds=('store', 'rmw', 'cas'))
+        ok = bool(ws) and all(o['kind'] == 'rmw' and o['name'] == 'exchange' for _, o in ws)
+        rep.ob('D10', 'K1', fn, 'destroy() marks the public list dead by exchange', ok, ', '.join(o['name'] for _, o in ws))
+    rep.floor('D10', 3, 'small object pool')
